@@ -146,3 +146,107 @@ theorem simplifyL_simpleObjectL : (xs : List G) → GFaithfulL xs = true → sim
 end
 
 end SlipVerif.Json
+
+namespace SlipVerif.Json
+open J
+
+/-! ### the guard of the native round trip is exact -/
+
+
+mutual
+/-- object keys are unique at every level (what a parsed document satisfies) -/
+def KeysDistinct : J → Bool
+  | arr xs => KeysDistinctL xs
+  | obj kvs => KeysDistinctM kvs && distinctKeys (keys kvs)
+  | _ => true
+def KeysDistinctL : List J → Bool
+  | [] => true
+  | x :: xs => KeysDistinct x && KeysDistinctL xs
+def KeysDistinctM : Members → Bool
+  | [] => true
+  | (_, v) :: kvs => KeysDistinct v && KeysDistinctM kvs
+end
+
+theorem ofLispA_keys : (kvs : Members) → (out : Members) → ofLispA (toLispM kvs) = .ok out → keys out = keys kvs
+  | [], out, h => by simp [toLispM, ofLispA] at h; subst h; rfl
+  | (k, v) :: kvs, out, h => by
+      simp only [toLispM, ofLispA] at h
+      cases hv : ofLisp (toLisp v) with
+      | error e => simp [hv, bind, Except.bind] at h
+      | ok v' =>
+        cases hr : ofLispA (toLispM kvs) with
+        | error e => simp [hv, hr, bind, Except.bind] at h
+        | ok out' =>
+          simp [hv, hr, bind, Except.bind] at h
+          subst h
+          simp [keys_cons, ofLispA_keys kvs out' hr]
+
+mutual
+theorem faithful_of_roundtrip : (j : J) → KeysDistinct j = true → ofLisp (toLisp j) = .ok j → Faithful j = true
+  | .null, _, _ => rfl
+  | .bool true, _, _ => rfl
+  | .bool false, _, h => by simp [toLisp, ofLisp] at h
+  | .int _, _, _ => rfl
+  | .flo _, _, _ => rfl
+  | .str _, _, _ => rfl
+  | .arr [], _, h => by simp [toLisp, toLispL, ofLisp] at h
+  | .arr (x :: xs), hk, h => by
+      simp only [KeysDistinct] at hk
+      simp only [toLisp, toLispL, ofLisp, isPair_toLisp x] at h
+      have hL : ofLispL (toLispL (x :: xs)) = .ok (x :: xs) := by
+        simp only [toLispL]
+        cases hr : ofLispL (toLisp x :: toLispL xs) with
+        | error e => simp [hr, bind, Except.bind] at h
+        | ok ys => simp [hr, bind, Except.bind] at h; rw [h]
+      have := faithfulL_of_roundtrip (x :: xs) hk hL
+      simp only [FaithfulL, Bool.and_eq_true] at this
+      simp [Faithful, this.1, this.2]
+  | .obj [], _, h => by simp [toLisp, toLispM, ofLisp] at h
+  | .obj ((k, v) :: kvs), hk, h => by
+      simp only [KeysDistinct, Bool.and_eq_true] at hk
+      simp only [toLisp, toLispM, ofLisp, isPair] at h
+      cases hr : ofLispA (toLispM ((k, v) :: kvs)) with
+      | error e => simp only [toLispM] at hr; simp [hr, bind, Except.bind] at h
+      | ok out =>
+        have hkeys := ofLispA_keys _ _ hr
+        have hmk : mkMembers out = out := mkMembers_of_distinct out (by rw [hkeys]; exact hk.2)
+        have hr' := hr
+        simp only [toLispM] at hr'
+        simp [hr', bind, Except.bind, hmk] at h
+        subst h
+        have := faithfulM_of_roundtrip ((k, v) :: kvs) hk.1 hr
+        simp only [FaithfulM, Bool.and_eq_true] at this
+        have hd : distinctKeys (k :: keys kvs) = true := by rw [← keys_cons k v kvs]; exact hk.2
+        simp [Faithful, this.1, this.2, hd]
+theorem faithfulL_of_roundtrip : (xs : List J) → KeysDistinctL xs = true → ofLispL (toLispL xs) = .ok xs → FaithfulL xs = true
+  | [], _, _ => rfl
+  | x :: xs, hk, h => by
+      simp only [KeysDistinctL, Bool.and_eq_true] at hk
+      simp only [toLispL, ofLispL] at h
+      cases hx : ofLisp (toLisp x) with
+      | error e => simp [hx, bind, Except.bind] at h
+      | ok x' =>
+        cases hr : ofLispL (toLispL xs) with
+        | error e => simp [hx, hr, bind, Except.bind] at h
+        | ok xs' =>
+          simp [hx, hr, bind, Except.bind] at h
+          obtain ⟨rfl, rfl⟩ := h
+          simp [FaithfulL, faithful_of_roundtrip x' hk.1 hx, faithfulL_of_roundtrip xs' hk.2 hr]
+theorem faithfulM_of_roundtrip : (kvs : Members) → KeysDistinctM kvs = true → ofLispA (toLispM kvs) = .ok kvs → FaithfulM kvs = true
+  | [], _, _ => rfl
+  | (k, v) :: kvs, hk, h => by
+      simp only [KeysDistinctM, Bool.and_eq_true] at hk
+      simp only [toLispM, ofLispA] at h
+      cases hx : ofLisp (toLisp v) with
+      | error e => simp [hx, bind, Except.bind] at h
+      | ok v' =>
+        cases hr : ofLispA (toLispM kvs) with
+        | error e => simp [hx, hr, bind, Except.bind] at h
+        | ok kvs' =>
+          simp [hx, hr, bind, Except.bind] at h
+          obtain ⟨rfl, rfl⟩ := h
+          simp [FaithfulM, faithful_of_roundtrip v' hk.1 hx, faithfulM_of_roundtrip kvs' hk.2 hr]
+end
+
+
+end SlipVerif.Json
